@@ -33,6 +33,14 @@ fn main() {
         println!("parse: {:?}", solang_parser::parse(&t, 0).map(|_| ()));
         return;
     }
+    if args[1] == "cover" {
+        let pool = mon::tree::pool();
+        for (n, d) in dets::ALL.iter() {
+            let hits: Vec<&str> = pool.progs.iter().filter(|(_, t)| !d.lines(t, 0).is_empty()).map(|(n, _)| n.as_str()).take(3).collect();
+            println!("{:32} {:?}", n, hits);
+        }
+        return;
+    }
     if args[1] == "worker" {
         std::process::exit(mon::worker::main(&args[2..]));
     }
